@@ -219,7 +219,7 @@ class Check:
                 else:
                     self.axioms[nme] = sorted(ax)
                     self.discharged += 1
-        hits = self.forbidden_scan()
+        hits = self.forbidden_scan(modules, exes)
         if hits:
             self.broken.append('forbidden-constructs:' + ';'.join(hits[:5]))
         self.trusted = sorted(set(self.trusted) | set(extra_trusted) | {
@@ -257,9 +257,33 @@ class Check:
         self.notes['audit_tail'] = out[-600:]
         return final
 
-    def forbidden_scan(self):
+    def _import_closure(self, modules, exes):
+        """Lean source files (under lean/) that the given modules / driver executables depend on."""
+        todo = list(modules) + ['Driver.' + e[len('drv_'):].upper() for e in exes if e.startswith('drv_')]
+        seen, files = set(), []
+        while todo:
+            m = todo.pop()
+            if m in seen:
+                continue
+            seen.add(m)
+            f = LEAN / (m.replace('.', '/') + '.lean')
+            if not f.exists():
+                continue
+            files.append(f)
+            for mm in re.findall(r'^\s*import\s+((?:NoteSeqVerif|Driver)[\w.]*)', f.read_text(), re.M):
+                todo.append(mm)
+        return files
+
+    def forbidden_scan(self, modules=None, exes=()):
+        """scan the Lean sources this property depends on (import closure of its proof modules and
+        drivers) for constructs that would void a proof; all sources if no modules are given."""
         hits = []
-        for p in list((LEAN / 'NoteSeqVerif').rglob('*.lean')) + list((LEAN / 'Driver').rglob('*.lean')):
+        if modules is None:
+            files = list((LEAN / 'NoteSeqVerif').rglob('*.lean')) + list((LEAN / 'Driver').rglob('*.lean'))
+        else:
+            files = self._import_closure(modules, exes)
+        self.notes['lean_files_scanned'] = len(files)
+        for p in files:
             src = strip_lean_comments(p.read_text())
             for m in FORBIDDEN.finditer(src):
                 hits.append('%s:%s' % (p.relative_to(LEAN), m.group(0).strip()))
